@@ -196,8 +196,19 @@ impl<'d> BuildCtx<'d> {
         let (mut ur, mut uw) = (vec![], vec![]);
         let mut epoch = 0;
         let mut next_id = 0usize;
+        // names accepted so far by this builder: a registration the harness itself can see to be
+        // well-formed is made through the chaining form (`with`, `with_batch`, ..) every third time
+        let mut names: Vec<String> = vec![];
+        let mut nth = 0usize;
         for op in ops {
+            nth += 1;
+            let chain = nth % 3 == 1;
             match op {
+                Op::Barrier if chain => {
+                    *b = std::mem::take(b).with_barrier();
+                    self.ask("barrier");
+                    epoch += 1;
+                }
                 Op::Barrier => {
                     b.add_barrier();
                     self.ask("barrier");
@@ -205,7 +216,11 @@ impl<'d> BuildCtx<'d> {
                 }
                 Op::Tl { tag, r, w } => {
                     let sys = HSys { acc: Acc { tag: *tag, decl_r: r.clone(), decl_w: w.clone(), shared: self.shared.clone(), path: path.clone(), borrow: self.borrow }, time: rt(3) };
-                    b.add_thread_local(sys);
+                    if chain {
+                        *b = std::mem::take(b).with_thread_local(sys);
+                    } else {
+                        b.add_thread_local(sys);
+                    }
                     self.ask(&op.head_line());
                     self.out.infos.insert(*tag, Info { tag: *tag, name: String::new(), deps: vec![], r: r.clone(), w: w.clone(), t: 3, is_batch: false, is_tl: true, placed: true, epoch, outcome: "ok".into(), parent, id: usize::MAX });
                     self.out.order.entry(parent).or_default().push(*tag);
@@ -213,7 +228,14 @@ impl<'d> BuildCtx<'d> {
                 Op::Sys { tag, name, deps, r, w, t } => {
                     let sys = HSys { acc: Acc { tag: *tag, decl_r: r.clone(), decl_w: w.clone(), shared: self.shared.clone(), path: path.clone(), borrow: self.borrow }, time: rt(*t) };
                     let dr: Vec<&str> = deps.iter().map(|s| s.as_str()).collect();
-                    let real = match catch_unwind(AssertUnwindSafe(|| b.add(sys, name, &dr))) {
+                    let well_formed = (name.is_empty() || !names.contains(name)) && deps.iter().all(|d| names.contains(d));
+                    let real = match catch_unwind(AssertUnwindSafe(|| {
+                        if chain && well_formed {
+                            *b = std::mem::take(b).with(sys, name, &dr)
+                        } else {
+                            b.add(sys, name, &dr)
+                        }
+                    })) {
                         Ok(()) => "placed".to_string(),
                         Err(p) => classify_add_panic(p),
                     };
@@ -228,6 +250,9 @@ impl<'d> BuildCtx<'d> {
                     if placed {
                         union(&mut ur, r);
                         union(&mut uw, w);
+                        if !name.is_empty() {
+                            names.push(name.clone());
+                        }
                     }
                     self.out.infos.insert(*tag, Info { tag: *tag, name: name.clone(), deps: deps.clone(), r: r.clone(), w: w.clone(), t: *t, is_batch: false, is_tl: false, placed, epoch, outcome: real, parent, id });
                     self.out.order.entry(parent).or_default().push(*tag);
@@ -248,7 +273,11 @@ impl<'d> BuildCtx<'d> {
                     self.shared.behav[*tag].is_multi.store(ctl_is_multi(*ctl), SeqCst);
                     let dr: Vec<&str> = deps.iter().map(|s| s.as_str()).collect();
                     let direct = self.shared.direct_multi.load(SeqCst);
+                    let well_formed = (name.is_empty() || !names.contains(name)) && deps.iter().all(|d| names.contains(d));
                     let real = match catch_unwind(AssertUnwindSafe(|| match ctl {
+                        0 if chain && well_formed => *b = std::mem::take(b).with_batch(Ctl0(core), ib, name, &dr),
+                        2 if chain && well_formed => *b = std::mem::take(b).with_batch(Ctl2(core), ib, name, &dr),
+                        9 if chain && well_formed && !direct => *b = std::mem::take(b).with_batch(MCtl(core, MultiDispatcher::new(Plan9(*n))), ib, name, &dr),
                         9 if direct => b.add_batch(MultiDispatcher::new(Plan9(*n)), ib, name, &dr),
                         10 if direct => b.add_batch(MultiDispatcher::new(Plan10(*n)), ib, name, &dr),
                         0 => b.add_batch(Ctl0(core), ib, name, &dr),
@@ -277,6 +306,9 @@ impl<'d> BuildCtx<'d> {
                     if placed {
                         union(&mut ur, &ir);
                         union(&mut uw, &iw);
+                        if !name.is_empty() {
+                            names.push(name.clone());
+                        }
                     }
                     self.out.infos.insert(*tag, Info { tag: *tag, name: name.clone(), deps: deps.clone(), r: ir, w: iw, t: *t, is_batch: true, is_tl: false, placed, epoch, outcome: real, parent, id });
                     self.out.order.entry(parent).or_default().push(*tag);
@@ -294,6 +326,25 @@ impl<'d> BuildCtx<'d> {
         }
         if let Some(l) = self.ask("debug") {
             self.out.model_debug.insert(key, unhex(&l));
+        }
+        // the builder's own queries (builder.rs l.116-131, l.201)
+        if self.drv.is_some() {
+            let mut probes: Vec<String> = self.out.infos.values().filter(|i| i.parent == key && !i.is_tl).map(|i| i.name.clone()).collect();
+            probes.sort();
+            probes.dedup();
+            probes.truncate(4);
+            let more: Vec<String> = probes.iter().map(|n| n.replace([' ', '-', '/'], "_")).collect();
+            probes.extend(more);
+            probes.push("no such system".into());
+            probes.push(String::new());
+            for n in probes {
+                let real = format!("has={} contains={} n={} empty={}", b.has_system(&n), b.contains(&n), b.num_systems(), b.is_empty());
+                if let Some(m) = self.ask(&format!("query {}", hex(&n))) {
+                    if m != real {
+                        self.out.diffs.push(format!("builder {:?}: queries about {:?}: real `{}` model `{}`", key, n, real, m));
+                    }
+                }
+            }
         }
     }
 }
